@@ -110,6 +110,15 @@ impl SecondaryStorage {
             }
         }
 
+        // A commit that raced with DROP TABLE can be logged after the drop: its RowSets and DVs
+        // belong to a table that no longer exists. They are unreferenced data, to be vacuumed
+        // below like any other leftover, not a reason to refuse to open the database.
+        {
+            let tables = engine.tables.read();
+            rowsets_to_open.retain(|_, entry| tables.contains_key(&entry.table_id));
+            dvs_to_open.retain(|_, entry| tables.contains_key(&entry.table_id));
+        }
+
         info!(
             "{} tables loaded, {} rowset loaded, {} DV loaded",
             engine.tables.read().len(),
